@@ -502,7 +502,7 @@ Lemma diverged_val_int k e a : 0 <= k ->
   diverged_val (k, 0) TInt (VInt e) (VInt a) = true <-> k < Z.abs (a - e).
 Proof.
   intros Hk. unfold diverged_val, val_eqb, scalar_diverged, dy_abs, dy_sub, dy_ltb, dy_align. cbn.
-  rewrite !Z.mul_1_r.
+  try rewrite !Z.mul_1_r.
   destruct (Z.eqb_spec e a) as [->|Hne].
   - rewrite Z.sub_diag. cbn. split; [discriminate|lia].
   - destruct (Z.eqb_spec (Z.abs (a - e)) 0) as [H0|H0]; [lia|].
